@@ -166,6 +166,59 @@ pub fn async_parse(data: &Arc<Vec<u8>>, plan: Plan) -> (Outcome, Shared, ExecSta
     }
 }
 
+/// parse_parts() and then the rest of the stream through the source handed back by reader.into_inner() (blocking)
+pub fn sync_parse_parts(data: &Arc<Vec<u8>>, plan: Plan) -> Outcome {
+    let (src, _shared) = Scripted::new(data.clone(), plan);
+    let r = catch(move || match IppParser::new(IppReader::new(src)).parse_parts() {
+        Ok((h, attrs, reader)) => {
+            let mut m = mirror::from_ipp_head(&h, &attrs);
+            let mut inner = reader.into_inner();
+            let mut buf = Vec::new();
+            match read_all_sync(&mut inner as &mut dyn std::io::Read, &mut buf) {
+                Ok(()) => {
+                    m.data = buf;
+                    Outcome::Ok(Box::new(m))
+                }
+                Err(k) => Outcome::PayloadErr(k),
+            }
+        }
+        Err(e) => Outcome::Err(errk(&e)),
+    });
+    r.unwrap_or_else(Outcome::Panic)
+}
+
+/// the same through the async parser
+pub fn async_parse_parts(data: &Arc<Vec<u8>>, plan: Plan) -> Outcome {
+    let (src, shared) = Scripted::new(data.clone(), plan);
+    let sh = [shared.clone()];
+    let r = catch(|| {
+        let fut = async move {
+            match AsyncIppParser::new(AsyncIppReader::new(src)).parse_parts().await {
+                Ok((h, attrs, reader)) => {
+                    let mut m = mirror::from_ipp_head(&h, &attrs);
+                    let mut inner = reader.into_inner();
+                    let mut buf = Vec::new();
+                    match AsyncReadExt::read_to_end(&mut inner, &mut buf).await {
+                        Ok(_) => {
+                            m.data = buf;
+                            Outcome::Ok(Box::new(m))
+                        }
+                        Err(e) => Outcome::PayloadErr(e.kind()),
+                    }
+                }
+                Err(e) => Outcome::Err(errk(&e)),
+            }
+        };
+        src::run(fut, &sh, MAX_IDLE_POLLS)
+    });
+    match r {
+        Ok((Exec::Ready(o), _)) => o,
+        Ok((Exec::Deadlock, _)) => Outcome::Hang("async parse_parts returned Pending without a registered wake-up".into()),
+        Ok((Exec::BusyLoop, _)) => Outcome::Hang(format!("async parse_parts polled {MAX_IDLE_POLLS} times without progress")),
+        Err(p) => Outcome::Panic(p),
+    }
+}
+
 pub fn arc(v: Vec<u8>) -> Arc<Vec<u8>> {
     Arc::new(v)
 }
